@@ -861,6 +861,7 @@ def replay(ctx, path):
     else:
         harness = C.build_harness(ctx, "hash", SOURCES, extra_flags=ipb_flags())
     translate()
+    translate_fn()
     C.lake_build([DRIVER])
     diffs = C.differential(ctx, harness, C.driver_path(DRIVER), [h], reference, C.default_eq)
     for d in diffs:
